@@ -246,17 +246,35 @@ Theorem c02_expression_sources_are_its_column_references : forall ex x,
 Proof. exact ops_srcs_set. Qed.
 Print Assumptions c02_expression_sources_are_its_column_references.
 
-(** whole pipeline: INSERT (no column list) / CTAS / VIEW over one SELECT from base tables whose items are stars, column
-    references or ALIASED expressions: the end-to-end column pairs are the specified ones, for any trivia, any number of
-    tables and items, expressions of any depth.  Partial: INSERT with an explicit column list and expression items is
-    tested (lemma_Bx_tests) but not proved ([lemma_Bx_cols_statement] is only type-checked). *)
-Theorem c02_exact_on_single_select_with_expressions_partial : forall noise e s,
-  noise_ok noise = true -> env_ok e = true -> stmt_ok_x s = true -> colshape s = true -> no_cols s = true ->
+(** whole pipeline: INSERT (with or without column list) / CTAS / VIEW over one SELECT from base tables whose items are stars,
+    column references or ALIASED expressions: the end-to-end column pairs are the specified ones, for any trivia, any number of
+    tables and items, expressions of any depth *)
+From SV Require Import Tree.LemmaBExpr3.
+Theorem c02_exact_on_single_select_with_expressions : forall noise e s,
+  noise_ok noise = true -> env_ok e = true -> stmt_ok_x s = true -> colshape s = true ->
   script_pairs e false [] [r_stmt_x noise s] = spec_pairs (e_cfg e) s.
-Proof. exact lemma_Bx_partial. Qed.
-Print Assumptions c02_exact_on_single_select_with_expressions_partial.
+Proof. exact lemma_Bx. Qed.
+Print Assumptions c02_exact_on_single_select_with_expressions.
 
 (** without [colshape] it is false (a qualified and an unqualified reference to the same name in one expression) *)
 Theorem c02_expressions_unguarded_refuted : ~ lemma_Bx_unguarded.
 Proof. exact lemma_Bx_unguarded_refuted. Qed.
 Print Assumptions c02_expressions_unguarded_refuted.
+
+(** * UPDATE and MERGE at column level (Ast/SpecDmlCols.v: the dataflow of an UPDATE is that of CREATE TABLE t AS SELECT [q.]b AS a ..
+    FROM the FROM list; of a MERGE that of SELECT set items ++ insert columns := values FROM the USING source; Tree/LemmaBDml.v).
+    For any trivia, any number of assignments and tables.  Partial: MERGE with a derived-table source and UPDATE over derived
+    tables are tested, not proved.  The unguarded statement is refuted by five classes; two are defects of the implementation found
+    by this proof attempt (K-C02-12: the alias of an UPDATE target is not resolved; K-C02-13: MERGE ignores the qualifier of a
+    source column). *)
+From SV Require Import Ast.SpecDml Ast.SpecDmlCols Tree.RenderDml Tree.LemmaADmlDefs Tree.LemmaBDml.
+
+Theorem c02_exact_on_update_and_merge_partial : forall noise e d,
+  noise_ok noise = true -> env_ok e = true -> dml_cols_ok d = true ->
+  script_pairs e false [] [r_dml noise d] = dml_pairs (e_cfg e) d.
+Proof. exact lemma_B_dml. Qed.
+Print Assumptions c02_exact_on_update_and_merge_partial.
+
+Theorem c02_update_merge_unguarded_refuted : ~ lemma_B_dml_unguarded.
+Proof. exact lemma_B_dml_unguarded_refuted. Qed.
+Print Assumptions c02_update_merge_unguarded_refuted.
